@@ -14,7 +14,12 @@ use xs::{catch, Check, Tier, Violation};
 #[global_allocator]
 static ALLOC: xs::alloc::Counting = xs::alloc::Counting;
 
-pub const PART: &str = "serde";
+pub const PART: &str = match (cfg!(feature = "hm-std"), cfg!(feature = "hm-repr")) {
+    (true, true) => "serde",
+    (false, true) => "serde-nostd",
+    (true, false) => "serde-norepr",
+    (false, false) => "serde-nostd-norepr",
+};
 
 // ---------------------------------------------------------------------------------------------
 // A recursive deserializer adapter that reports `is_human_readable() == false` (what binary
@@ -555,6 +560,7 @@ fn composites(chk: &Check, cnt: &Cnt, tier: Tier) {
         judge::<DataType>(chk, cnt, "DataType", "variant", &json!(t), t != "Bogus", |_| None);
     }
     // ShortMessageType (serde_repr)
+    #[cfg(feature = "hm-repr")]
     for b in 0..=600u32 {
         let valid = b <= 255 && (b as u8 >= 0xF0 || (b >= 0x80 && b & 0x0F == 0));
         judge::<ShortMessageType>(chk, cnt, "ShortMessageType", "repr", &json!(b), valid, |t| if u8::from(*t) as u32 != b { Some(format!("decoded as {:?}", t)) } else { None });
@@ -567,8 +573,11 @@ fn composites(chk: &Check, cnt: &Cnt, tier: Tier) {
     shapes::<U14>(chk, cnt, "U14", &|v: &U14| if v.get() > 16383 { Some("out of range".into()) } else { None });
     shapes::<Channel>(chk, cnt, "Channel", &|v: &Channel| if v.get() > 15 { Some("out of range".into()) } else { None });
     shapes::<TimeCodeQuarterFrame>(chk, cnt, "TimeCodeQuarterFrame", &|f: &TimeCodeQuarterFrame| if U7::from(*f).get() > 127 { Some("encodes out of range".into()) } else { None });
-    judge::<ShortMessageType>(chk, cnt, "ShortMessageType", "repr", &json!("NoteOn"), false, |_| None);
-    judge::<ShortMessageType>(chk, cnt, "ShortMessageType", "repr", &json!(-112), false, |_| None);
+    #[cfg(feature = "hm-repr")]
+    {
+        judge::<ShortMessageType>(chk, cnt, "ShortMessageType", "repr", &json!("NoteOn"), false, |_| None);
+        judge::<ShortMessageType>(chk, cnt, "ShortMessageType", "repr", &json!(-112), false, |_| None);
+    }
 }
 
 fn roundtrip<T: Serialize + DeserializeOwned + PartialEq + Debug>(chk: &Check, ty: &str, v: &T) {
@@ -620,6 +629,7 @@ fn roundtrips(chk: &Check, cnt: &Cnt, tier: Tier) {
     for b in 0..128u8 {
         roundtrip(chk, "TimeCodeQuarterFrame", &TimeCodeQuarterFrame::from(U7::try_from(b).unwrap()));
     }
+    #[cfg(feature = "hm-repr")]
     for b in 0..=255u8 {
         if let Ok(t) = ShortMessageType::try_from(b) {
             roundtrip(chk, "ShortMessageType", &t);
@@ -629,7 +639,8 @@ fn roundtrips(chk: &Check, cnt: &Cnt, tier: Tier) {
 }
 
 fn run_c19(chk: &Check, tier: Tier) {
-    chk.rule("with features serde + serde_repr: each of the six integer types through serde's primitive value deserializers (every u8/i8/u16/i16 value; boundary and truncation values for 32/64-bit; str, bool, unit, float, sequences, maps); composite types through serde_json::Value trees whose field values run over boundary sets that include the first invalid value of every field (RawShortMessage: all 257 status values x data grid; ControlChange14BitMessage: all 257 controller values, map and sequence form; ParameterNumberMessage: every combination of resolution flag, data type and value boundary; StructuredShortMessage: every variant x per-field {0,max,max+1,65536+5}; quarter frames, time code types, data types, type bytes 0..600). An accepted value must satisfy the constructors' invariants, equal a constructor-built value and survive its accessors/encoders; natural representations of valid values must round-trip. non-trivial = distinct inputs that violate a constructor precondition (must be rejected)");
+    chk.set("helgoboss_midi_features", json!({"std": cfg!(feature = "hm-std"), "serde": true, "serde_repr": cfg!(feature = "hm-repr")}));
+    chk.rule("with the serde feature, in the four combinations with / without std and serde_repr (one part each; ShortMessageType only with serde_repr): each of the six integer types through serde's primitive value deserializers (every u8/i8/u16/i16 value; boundary and truncation values for 32/64-bit; str, bool, unit, float, sequences, maps); composite types through serde_json::Value trees whose field values run over boundary sets that include the first invalid value of every field (RawShortMessage: all 257 status values x data grid; ControlChange14BitMessage: all 257 controller values, map and sequence form; ParameterNumberMessage: every combination of resolution flag, data type and value boundary; StructuredShortMessage: every variant x per-field {0,max,max+1,65536+5}; quarter frames, time code types, data types, type bytes 0..600). An accepted value must satisfy the constructors' invariants, equal a constructor-built value and survive its accessors/encoders; natural representations of valid values must round-trip. non-trivial = distinct inputs that violate a constructor precondition (must be rejected)");
     let cnt = Cnt { evals: AtomicU64::new(0), invalid_inputs: AtomicU64::new(0), lenient: AtomicU64::new(0) };
     ints_for::<U4>(chk, &cnt, tier);
     ints_for::<U7>(chk, &cnt, tier);
